@@ -38,3 +38,7 @@ register("C17", "fault_enumeration",
          "Failure schedules injected into the placement step of the real random walk: all bit strings up to length 9 (quick) / 13 (thorough) x 14 residue-graph shapes with 0-3 supplied residues x rewind depths 1-4 at the single-molecule layer (bounded exhaustive), plus generated schedules through the real _compose_system/_handle_random_walk for 1-3 molecules. Invariants over the engine history are checked at every step.",
          "successful placements are the repository's own in an empty 30 nm box; enumeration is complete only for the stated bound and shapes",
          "bounded enumeration of failure schedules + Hypothesis-generated schedules, history-invariant oracle", "DESIGN.md 4/C17")
+register("C09", "exploration",
+         "Generated topologies (type tables with exact/reversed/wildcard entries and multiple terms, parameter-less interactions in both listing directions, 1-4 instances, #define macros, OPLS bond types, C6/C12 or sigma/epsilon atom types, nonbond_params subsets) are preprocessed and every instance is compared with an independent resolver (set of tied-best entries); the non-bonded table is checked for override precedence, self terms and C6/C12 conversion. The 16 masks x listing direction x key direction x competing-exact grid is enumerated in every run.",
+         "resolver R3 in pbt/c09.py; comb-rule formula assignment not asserted; 4-6 atom chain molecules",
+         "Hypothesis-generated inputs + enumerated mask grid, reference-resolver oracle", "DESIGN.md 4/C09")
